@@ -529,7 +529,7 @@ Proof.
 Qed.
 
 (* ------------------------------------------------------------ sorted with the complete volumes first *)
-Definition ann := (rec * (Z * bool))%type.
+Notation ann := (rec * (Z * bool))%type.
 Definition annot (L : list rec) (full : list bool) : list ann :=
   combine L (combine (vol_numbers (map sl L)) full).
 Definition aflag (a : ann) : bool := snd (snd a).
@@ -619,6 +619,20 @@ Proof.
   change dummy with (fst dann). apply select_map.
 Qed.
 
+Lemma vol_is_full_meaning : forall sn smax full,
+  vol_is_full sn smax = Some full ->
+  (forall s, In s sn -> 1 <= s <= smax) /\ length full = length sn /\
+  (forall v b, In (v, b) (combine (vol_numbers sn) full) ->
+     (b = true <-> forall s, 1 <= s <= smax -> In (s, v) (combine sn (vol_numbers sn)))) /\
+  (forall s v, In (s, v) (combine sn (vol_numbers sn)) <->
+     exists k : nat, v = Z.of_nat k /\ (k < count_occ Z.eq_dec sn s)%nat).
+Proof.
+  intros sn smax full E.
+  destruct (vol_is_full_spec sn smax) as [[IR [f [E' [L S]]]]|[_ E']]; [|congruence].
+  rewrite E in E'. inversion E'; subst f.
+  split; [exact IR|]. split; [exact L|]. split; [exact S|]. intros s v. apply vn_in.
+Qed.
+
 (* ------------------------------------------------------------ the sorted records of both orders *)
 (* the records named by the (untrimmed) sort order, as a sort of the annotated base list *)
 Definition base_of (strict : bool) (recs : list rec) : list rec := if strict then stage1 recs else recs.
@@ -666,10 +680,10 @@ Proof.
   pose proof (flag_first (kf_of strict) AL (kf_flag strict)) as [F1 F2]. cbv zeta in F1, F2.
   (* the trim length is the number of records of complete volumes *)
   assert (Hn : (if (1 <? nv)%nat then n_slices recs * nv else n_slices recs)%nat = length (filter aflag AL)).
-  { change (filter aflag AL) with (filter (fun t : rec * (Z * bool) => snd (snd t))
-                                           (combine L (combine (vol_numbers (map sl L)) full))).
-    rewrite (filter3_length L (vol_numbers (map sl L)) full)
-      by (rewrite ?vn_length, (full_length _ _ _ E), map_length; reflexivity).
+  { assert (Hc : length (filter aflag AL) = length (filter (fun b : bool => b) full)).
+    { apply (filter3_length L (vol_numbers (map sl L)) full);
+        rewrite ?vn_length, (full_length _ _ _ E), map_length; reflexivity. }
+    rewrite Hc.
     rewrite (full_count _ smax full E).
     assert (Ps : Permutation (map sl L) (map sl recs)) by now apply Permutation_map.
     pose proof (nvols_seq_perm _ _ smax Ps) as Q. unfold nvols_seq at 1 in Q. rewrite E in Q.
@@ -761,17 +775,102 @@ Section Obs.
     - now destruct (n_used smax recs).
   Qed.
 
-  (* C20_order_independent *)
-  Lemma order_independent permit fp expd smax nlab recs recs' :
-    Permutation recs recs' -> NoDup (map keys recs) ->
-    res_obs (load true permit fp expd smax nlab recs) = res_obs (load true permit fp expd smax nlab recs').
+  (* ---- lax order: unchanged when every record keeps its volume number *)
+  Definition fb (smax : Z) (sn : list Z) (v : Z) : bool :=
+    set_eqb (vol_slices sn (vol_numbers sn) v) (zrange 1 smax).
+
+  Lemma full_as_map sn smax full : vol_is_full sn smax = Some full -> full = map (fb smax sn) (vol_numbers sn).
   Proof.
-    intros P N.
-    destruct (load true permit fp expd smax nlab recs) as [[idx o]|e] eqn:L1,
-             (load true permit fp expd smax nlab recs') as [[idx' o']|e'] eqn:L2; cbn [res_obs snd].
+    unfold vol_is_full. destruct (negb (forallb (fun s => memz s (zrange 1 smax)) sn)); [discriminate|].
+    intros H. inversion H. apply map_ext_in. intros v Hv.
+    apply (lookup_tab (fb smax sn)). now apply nodup_In.
+  Qed.
+
+  Lemma fb_fullv sn smax full v : vol_is_full sn smax = Some full -> In v (vol_numbers sn) ->
+    fb smax sn v = true <-> fullv sn smax v.
+  Proof.
+    intros E Hv. destruct (vol_is_full_spec sn smax) as [[IR [f [E' [L S]]]]|[_ E']]; [|congruence].
+    rewrite E in E'. inversion E'; subst f. clear E'.
+    apply (S v (fb smax sn v)). rewrite (full_as_map sn smax full E) at 1.
+    clear -Hv. induction (vol_numbers sn) as [|w l IH]; [destruct Hv|].
+    cbn [map combine In]. destruct Hv as [->|Hv]; [now left|right; now apply IH].
+  Qed.
+
+  Lemma combine_map_diag {A B C} (g : B -> C) (a : list A) (b : list B) :
+    combine a (combine b (map g b)) = map (fun p => (fst p, (snd p, g (snd p)))) (combine a b).
+  Proof.
+    revert b; induction a as [|x a IH]; intros [|y b]; cbn; try reflexivity. now rewrite IH.
+  Qed.
+
+  Lemma NoDup_map_proj {A B C} (g : A -> B) (h : A -> C) l :
+    (forall a b, g a = g b -> h a = h b) -> NoDup (map h l) -> NoDup (map g l).
+  Proof.
+    intros H. induction l as [|x l IH]; cbn; intros N; [constructor|]. inversion N as [|? ? Hx Nr]; subst.
+    constructor; [|now apply IH]. intros Hin. apply Hx. apply in_map_iff in Hin.
+    destruct Hin as [y [E Hy]]. apply in_map_iff. exists y. split; [now apply H|assumption].
+  Qed.
+
+  Lemma lax_records_perm smax recs recs' :
+    Permutation (combine recs (vol_numbers (map sl recs))) (combine recs' (vol_numbers (map sl recs'))) ->
+    option_map (fun idx => select dummy idx recs) (sorted_slice_indices false smax recs) =
+    option_map (fun idx => select dummy idx recs') (sorted_slice_indices false smax recs').
+  Proof.
+    intros HP.
+    assert (P : Permutation recs recs').
+    { apply (Permutation_map fst) in HP. now rewrite !map_fst_combine in HP by now rewrite vn_length, map_length. }
+    assert (Ps : Permutation (map sl recs) (map sl recs')) by now apply Permutation_map.
+    unfold sorted_slice_indices. rewrite <- (n_used_perm smax recs recs' P).
+    destruct (lax_sort_order smax recs) as [o|] eqn:EO, (lax_sort_order smax recs') as [o'|] eqn:EO'.
+    - destruct (n_used smax recs) as [n|]; [|reflexivity]. cbn [option_map]. rewrite !select_firstn.
+      destruct (order_records false smax recs o EO) as [full [E R]].
+      destruct (order_records false smax recs' o' EO') as [full' [E' R']].
+      cbn [base_of kf_of] in *. rewrite R, R'. do 3 f_equal.
+      apply (isort_perm_invariant _ k3).
+      + intros; apply key_le_total.
+      + intros x y z; apply key_le_trans.
+      + intros x y; apply key_le_antisym.
+      + intros x y Ek. rewrite Ek. apply lex_le_refl.
+      + unfold annot. rewrite (full_as_map _ smax full E), (full_as_map _ smax full' E'), !combine_map_diag.
+        rewrite (Permutation_map _ HP). apply Permutation_refl'. apply map_ext_in.
+        intros [r v] Hin. cbn [fst snd]. do 2 f_equal.
+        assert (Hv' : In v (vol_numbers (map sl recs'))) by now apply in_combine_r in Hin.
+        assert (Hv : In v (vol_numbers (map sl recs))) by now apply (vn_In_vol_perm _ _ v Ps).
+        pose proof (fb_fullv _ smax full v E Hv) as F. pose proof (fb_fullv _ smax full' v E' Hv') as F'.
+        pose proof (fullv_perm _ _ smax v Ps) as G.
+        destruct (fb smax (map sl recs) v), (fb smax (map sl recs') v); try reflexivity.
+        * symmetry. apply F'. apply G. now apply F.
+        * apply F. apply G. now apply F'.
+      + apply (NoDup_map_proj k3 (fun a : ann => (sl (fst a), fst (snd a)))).
+        * intros [ra [va fa]] [rb [vb fb0]] Ek. unfold k3 in Ek. cbn in *. now inversion Ek.
+        * unfold annot.
+          replace (map (fun a : ann => (sl (fst a), fst (snd a)))
+                       (combine recs (combine (vol_numbers (map sl recs)) full)))
+            with (combine (map sl recs) (vol_numbers (map sl recs))); [apply vn_nodup|].
+          rewrite <- (map_proj12 (map sl recs) (vol_numbers (map sl recs)) full)
+            by now rewrite vn_length, (full_length _ _ _ E).
+          rewrite combine_map_l, map_map. reflexivity.
+    - exfalso. unfold lax_sort_order in EO, EO'.
+      destruct (vol_is_full (map sl recs') smax) eqn:E'; [discriminate|].
+      apply (vol_is_full_none_perm _ _ smax Ps) in E'. rewrite E' in EO. discriminate.
+    - exfalso. unfold lax_sort_order in EO, EO'.
+      destruct (vol_is_full (map sl recs) smax) eqn:E; [discriminate|].
+      apply (vol_is_full_none_perm _ _ smax Ps) in E. rewrite E in EO'. discriminate.
+    - now destruct (n_used smax recs).
+  Qed.
+
+  (* equal sorted records + permuted records => equal observables *)
+  Lemma obs_independent_gen (strict : bool) permit fp expd smax nlab recs recs' :
+    Permutation recs recs' ->
+    option_map (fun idx => select dummy idx recs) (sorted_slice_indices strict smax recs) =
+    option_map (fun idx => select dummy idx recs') (sorted_slice_indices strict smax recs') ->
+    res_obs (load strict permit fp expd smax nlab recs) = res_obs (load strict permit fp expd smax nlab recs').
+  Proof.
+    intros P SR.
+    destruct (load strict permit fp expd smax nlab recs) as [[idx o]|e] eqn:L1,
+             (load strict permit fp expd smax nlab recs') as [[idx' o']|e'] eqn:L2; cbn [res_obs snd].
     - destruct (load_ok _ _ _ _ _ _ _ _ _ L1) as [_ [SI [nv [NV ->]]]].
       destruct (load_ok _ _ _ _ _ _ _ _ _ L2) as [_ [SI' [nv' [NV' ->]]]].
-      pose proof (strict_records_perm smax recs recs' P N) as SR. rewrite SI, SI' in SR.
+      rewrite SI, SI' in SR.
       cbn [option_map] in SR. inversion SR as [SR1]. rewrite SR1.
       rewrite (n_vols_perm smax recs recs' P), NV' in NV. inversion NV; subst nv'.
       rewrite (n_slices_perm recs recs' P). f_equal. unfold obs_of. f_equal.
@@ -779,18 +878,35 @@ Section Obs.
       now rewrite (n_distinct_perm _ _ (column_perm labs j recs recs' P)).
     - exfalso. destruct (load_ok _ _ _ _ _ _ _ _ _ L1) as [HI [SI [nv [NV _]]]].
       unfold Model.load in L2. rewrite <- (header_init_perm permit expd smax recs recs' P), HI in L2.
-      pose proof (strict_records_perm smax recs recs' P N) as SR. rewrite SI in SR.
-      destruct (sorted_slice_indices true smax recs') as [i'|]; [|discriminate].
+      rewrite SI in SR.
+      destruct (sorted_slice_indices strict smax recs') as [i'|]; [|discriminate].
       rewrite <- (n_vols_perm smax recs recs' P), NV in L2. discriminate.
     - exfalso. destruct (load_ok _ _ _ _ _ _ _ _ _ L2) as [HI [SI [nv [NV _]]]].
       unfold Model.load in L1. rewrite (header_init_perm permit expd smax recs recs' P), HI in L1.
-      pose proof (strict_records_perm smax recs recs' P N) as SR. rewrite SI in SR.
-      destruct (sorted_slice_indices true smax recs) as [i'|]; [|discriminate].
+      rewrite SI in SR.
+      destruct (sorted_slice_indices strict smax recs) as [i'|]; [|discriminate].
       rewrite (n_vols_perm smax recs recs' P), NV in L1. discriminate.
     - unfold Model.load in L1, L2. rewrite (header_init_perm permit expd smax recs recs' P) in L1.
       destruct (header_init permit expd smax recs') as [[]|e0]; [|congruence].
       rewrite (n_vols_perm smax recs recs' P) in L1.
-      destruct (sorted_slice_indices true smax recs), (n_vols smax recs'),
-        (sorted_slice_indices true smax recs'); congruence.
+      destruct (sorted_slice_indices strict smax recs), (n_vols smax recs'),
+        (sorted_slice_indices strict smax recs'); congruence.
+  Qed.
+
+  (* C20_order_independent *)
+  Lemma order_independent permit fp expd smax nlab recs recs' :
+    Permutation recs recs' -> NoDup (map keys recs) ->
+    res_obs (load true permit fp expd smax nlab recs) = res_obs (load true permit fp expd smax nlab recs').
+  Proof.
+    intros P N. apply obs_independent_gen; [assumption|]. now apply strict_records_perm.
+  Qed.
+
+  (* C20_lax_order_preserving *)
+  Lemma lax_order_preserving permit fp expd smax nlab recs recs' :
+    Permutation (combine recs (vol_numbers (map sl recs))) (combine recs' (vol_numbers (map sl recs'))) ->
+    res_obs (load false permit fp expd smax nlab recs) = res_obs (load false permit fp expd smax nlab recs').
+  Proof.
+    intros HP. apply obs_independent_gen; [|now apply lax_records_perm].
+    apply (Permutation_map fst) in HP. now rewrite !map_fst_combine in HP by now rewrite vn_length, map_length.
   Qed.
 End Obs.
